@@ -46,6 +46,10 @@ func init() {
 		Extras: []core.Extra{
 			{Name: "header-chunkings-exhaustive", Run: extraCompositions},
 			{Name: "real-randomness", Run: extraRealRandom},
+			{Name: "gcm-tamper-all-bits", Run: extraGCMTamper},
+			{Name: "malformed-encoded-exhaustive", Run: extraMalformedEncoded},
+			{Name: "iotest-readers-both-sides", Run: extraIotestReaders},
+			{Name: "large-inputs", Run: extraLargeInputs},
 			{Name: "openssl-binary", Run: extraOpenSSL, Tiers: []string{"thorough"}},
 		},
 		Assumptions: []string{
